@@ -30,7 +30,10 @@ META = {
             "(mpiAllreduce/mpiExscan/mpiBcast; MPI_Exscan leaves rank 0's receive buffer untouched) and the theorems named *_wrapper_* only show "
             "that YGM's use of them (operator, datatype via mpi_typeof, `T to_return{0}`, barrier first) yields the fold.  The serialiser is a "
             "parameter (round trip = C06).  'Completes all outstanding asyncs' is proved only structurally (barrier precedes the reduction; "
-            "quiescence is C02) and otherwise tested.  WHICH value of an argument variable is folded when asyncs that update it are outstanding "
+            "quiescence is C02) and otherwise tested.  Size-boundary sweep (run_size_sweep, shared with C03): every serialised size 0..2200 bytes in "
+            "1-byte steps plus sizes around 4 KiB / 64 KiB / 1 MiB through the tree all_reduce (string, vector<uint64_t>, vector<pair<string,int>>), "
+            "comm::mpi_bcast / ygm::bcast of strings from three roots and an mpi_send/mpi_recv ping-pong on 2, 3, 5 ranks; a run that does not end "
+            "`ok` is a failing input, results are compared with the model through length + CRC32.  WHICH value of an argument variable is folded when asyncs that update it are outstanding "
             "(Coll.inputRead, theorems reductions_read_after_barrier / by_value_reductions_read_at_call, run mode asyncval): sum/min/max/prefix_sum take "
             "`const T&` and hand it to MPI after barrier() => the FINAL values (all handlers applied) are folded; logical_and/logical_or take `bool` BY "
             "VALUE and is_same reads its argument before logical_and's barrier => for those three the property speaks only about the value held at the "
@@ -877,6 +880,18 @@ def replay(data):
     if binary is None:
         print(err[-500:])
         return False
+    if case["mode"] == "sweep":         # one size of the size-boundary sweep
+        R = case["nodes"] * case["ppn"]
+        sr = C.run_sim(binary, ["sweep", case["kind"], str(case["L"])], nodes=case["nodes"], ppn=case["ppn"], env=case.get("env"),
+                       sim_seed=case.get("sim_seed", 1), policy=case.get("policy", "uniform"), want_log=False, timeout=600)
+        print("verdict", sr.verdict, sr.blocked)
+        rows = {r: [l for l in sr.outs.get(r, []) if l.startswith("s ")] for r in range(R)}
+        for r in range(R):
+            print(r, rows[r][:3])
+        same = "real_crc_len" not in case or all(
+            [int(x) for x in rows[r][sweep_roots(case["kind"], R).index(case.get("root", -1))].split(" ")[3:5]] == list(case["real_crc_len"][r])
+            for r in range(R) if rows[r])
+        return sr.verdict == "ok" and not ("real_crc_len" in case and same)
     job = job_id(case)
     sr = run_job(binary, job)
     res = C.Result()
